@@ -56,7 +56,8 @@ pub enum ParkResult {
 }
 
 const STUCK_AT: u32 = 2;   // consecutive failures (same address, nobody wrote in between) to be deprioritized
-const DEAD_AT:  u32 = 8;   // ... to be considered spinning for ever
+const DEAD_AT:  u32 = 8;
+const FAIRNESS_WINDOW: u32 = 48;   // scheduling points inside one operation after which the others get a turn   // ... to be considered spinning for ever
 
 struct Inner {
     status:       Vec<Status>,
@@ -92,6 +93,8 @@ struct Inner {
     dead_waker_uses_superseded: u32,
     /// scheduling points executed by each thread itself
     steps_of:     Vec<u32>,
+    /// ... since its current harness-declared operation started (bounded fairness for retry loops that keep writing)
+    steps_in_op:  Vec<u32>,
     /// threads that asked to let the others run first (harness-level back-off of a retry loop)
     yielding:     Vec<bool>,
 }
@@ -179,6 +182,10 @@ thread_local! {
 
 static QUIET_HOOK: Once = Once::new();
 pub static VERBOSE_PANICS: AtomicBool = AtomicBool::new(false);
+/// debugging aid (RMV_TRACE=1 with `replay`): prints every scheduling point
+pub static TRACE_OPS: AtomicBool = AtomicBool::new(false);
+static TRACE_ADDRS: Mutex<Vec<usize>> = Mutex::new(Vec::new());
+fn addr_name(a: usize) -> String { if a == 0 { return "-".into(); } let mut g = TRACE_ADDRS.lock().unwrap(); let i = match g.iter().position(|x| *x == a) { Some(i) => i, None => { g.push(a); g.len() - 1 } }; format!("A{i}") }
 
 fn install_quiet_panic_hook() {
     QUIET_HOOK.call_once(|| {
@@ -196,10 +203,12 @@ fn install_quiet_panic_hook() {
 struct ThreadHook { sched: Arc<Sched>, tid: usize }
 
 impl Hook for ThreadHook {
-    fn before(&self, _addr: usize, _kind: OpKind, _tag: &'static str) {
+    fn before(&self, addr: usize, kind: OpKind, tag: &'static str) {
         self.sched.sched_point(self.tid);
+        if TRACE_OPS.load(Ordering::Relaxed) { println!("    step {:4} T{} {:?} {} {}", self.sched.step(), self.tid, kind, addr_name(addr), tag); }
     }
     fn after(&self, addr: usize, kind: OpKind, wrote: bool, failed: bool) {
+        if TRACE_OPS.load(Ordering::Relaxed) && !matches!(kind, OpKind::Yield) { println!("              -> T{} {:?} {} wrote={} failed={}", self.tid, kind, addr_name(addr), wrote, failed); }
         let mut g = self.sched.m.lock().unwrap();
         let t = self.tid;
         if wrote { g.write_epoch += 1; }
@@ -284,6 +293,7 @@ impl Sched {
                 dead_waker_uses_superseded: 0,
                 yielding: vec![false; n],
                 steps_of: vec![0; n],
+                steps_in_op: vec![0; n],
             }),
             cvs: (0..n).map(|_| Condvar::new()).collect(),
             ctl: Condvar::new(),
@@ -353,11 +363,21 @@ impl Sched {
         }
         g.step += 1;
         g.steps_of[me] += 1;
+        g.steps_in_op[me] += 1;
         for t in 0..g.yielding.len() { if t != me { g.yielding[t] = false; } }
         if g.step > g.max_steps {
             self.abort_now(&mut g, EndState::Budget);
             drop(g);
             panic::panic_any(AbortToken);
+        }
+        // bounded fairness: a thread that has executed many scheduling points inside one operation (a retry loop that keeps
+        // writing, so it never looks stuck) lets the others run before it continues
+        if g.in_op[me] && g.steps_in_op[me] > 0 && g.steps_in_op[me] % FAIRNESS_WINDOW == 0 && !g.draining {
+            let others: Vec<usize> = g.eligible_list().into_iter().filter(|&t| t != me).collect();
+            if !others.is_empty() {
+                let next = others[(g.steps_in_op[me] / FAIRNESS_WINDOW) as usize % others.len()];
+                return self.switch_and_wait(g, me, next, false);
+            }
         }
         match g.choose(me) {
             Some(next) => self.switch_and_wait(g, me, next, false),
@@ -478,7 +498,7 @@ impl Sched {
     pub fn step(&self) -> u32 { self.m.lock().unwrap().step }
     pub fn steps_of(&self, tid: usize) -> u32 { self.m.lock().unwrap().steps_of[tid] }
 
-    fn set_in_op(&self, me: usize, v: bool) { self.m.lock().unwrap().in_op[me] = v; }
+    fn set_in_op(&self, me: usize, v: bool) { let mut g = self.m.lock().unwrap(); g.in_op[me] = v; g.steps_in_op[me] = 0; }
 
     /// Runs the logical threads to the end of the run and returns what happened
     pub fn execute(self: &Arc<Self>, bodies: Vec<Box<dyn FnOnce(&ThreadCtx) + Send>>) -> Outcome {
